@@ -56,7 +56,7 @@ def run(ctx):
     table_slots(ctx)
     ctx.clauses.append("PartialDSym and SimpleDSym (PartialDSet and SimpleDSet) answer the queries with sibling implementations of the same structure (T4 cross-check)")
     for m_, tr in (("r", "dsets::DSet"), ("m", "dsets::DSet"), ("v", "dsyms::DSym"), ("op", "dsets::DSet")):
-        siblings_agree(ctx, "T4-siblings-agree", "<dsyms::PartialDSym as %s>::%s" % (tr, m_), "<dsyms::SimpleDSym as %s>::%s" % (tr, m_), "PartialDSym ~ SimpleDSym")
+        siblings_agree(ctx, "T4-siblings-agree", "<dsyms::PartialDSym as %s>::%s" % (tr, m_), "<dsyms::SimpleDSym as %s>::%s" % (tr, m_), "PartialDSym ~ SimpleDSym", compare_fields=True)
     siblings_agree(ctx, "T4-siblings-agree", "<dsets::PartialDSet as dsets::DSet>::op", "<dsets::SimpleDSet as dsets::DSet>::op", "PartialDSet ~ SimpleDSet", ignore=("unreachable_unchecked",))
     ctx.notes.append("T5 engine stats: %s" % eng.stats)
 
